@@ -34,9 +34,16 @@ func TestC07TwoWriters(t *testing.T) {
 	var cases, steps, heldOverwrites int64
 	for d := 1; d <= depth; d++ {
 		Seqs(len(ops), d, false, vk.Deadline(120e9, 600e9), func(seq []int) {
-			for held := 0; held < 1<<d; held++ {
+			for held := 0; held <= 1<<d; held++ {
+				// the extra case: nothing held, and the clock never advances (every change falls within one reading of it;
+				// with something held two nodes could stamp one topic equally without knowing of each other: a genuine tie)
+				frozen := held == 1<<d
+				if frozen {
+					held = 0
+				}
 				cases++
 				dResetClock()
+				dFrozen = frozen
 				nodes := []*dnode{newDNode("A", 1, 0), newDNode("B", 2, 0)}
 				var names []string
 				var late [][2]any
@@ -70,6 +77,9 @@ func TestC07TwoWriters(t *testing.T) {
 					l[0].(*dnode).recv(l[1].([][]byte)...)
 				}
 				desc := map[string]any{"ops": names, "held_until_end_mask": held}
+				if frozen {
+					desc["clock"] = "frozen"
+				}
 				for _, n := range nodes {
 					got := ""
 					msgs, _ := n.st.Topics().Get([]byte("m/a"))
@@ -77,11 +87,14 @@ func TestC07TwoWriters(t *testing.T) {
 						got += string(m.Publish.Topic) + "=" + string(m.Publish.Payload)
 					}
 					if got != want {
-						rep.Violate(vk.Violation{Sig: "c07-two-publishers-last-change-lost", Msg: fmt.Sprintf("%v (broadcasts of the changes in mask %b delivered only at the end): node %s replays [%s] for m/a, the last change left [%s]", names, held, n.name, got, want), Replay: desc})
+						rep.Violate(vk.Violation{Sig: "c07-two-publishers-last-change-lost", Msg: fmt.Sprintf("%v (broadcasts of the changes in mask %b delivered only at the end; clock frozen: %v): node %s replays [%s] for m/a, the last change left [%s]", names, held, frozen, n.name, got, want), Replay: desc})
 						return
 					}
 				}
-				states.AddString(fmt.Sprint(names, held))
+				states.AddString(fmt.Sprint(names, held, frozen))
+				if frozen {
+					break
+				}
 			}
 		})
 	}
@@ -92,7 +105,7 @@ func TestC07TwoWriters(t *testing.T) {
 	rep.Outcomes = 3
 	rep.Nontrivial = heldOverwrites
 	rep.Bounds["depth"] = depth
-	rep.Bounds["delivery"] = "each change's broadcast at once or at the end, every subset"
+	rep.Bounds["delivery"] = "each change's broadcast at once or at the end, every subset; plus, with everything delivered at once, a clock that never advances"
 	rep.Rule = "every sequence of length 1..d over {A,B} x {Set x, Set y, Delete} on one retained topic x every subset of broadcasts held back until the end; after delivery both nodes' Get(topic) equals what the last change left; non-trivial = cases with at least one held broadcast"
 	rep.Floor("held", 100, heldOverwrites)
 	rep.Sample([]string{name(ops[0]), name(ops[4]), name(ops[0])})
